@@ -61,6 +61,10 @@ def handle (op : String) (args : List PyVal) : Option (List PyVal) :=
     match parse noFloatText t v with
     | .ok r => pure [.list [.str "ok", encodeVal r, .str (match r with | some x => x.cls | none => "None"), .str t.cls]]
     | .error e => pure [.list [.str "err", .str e.name]]
+  | "renderdec", [v] => do
+    match ← decodeVal v with
+    | some (.dec d) => pure [.str (String.ofList (renderDec d)), encodeVal ((decOfText (renderDec d)).map Val.dec)]
+    | _ => none
   | "array", [t, .list vs] => do
     let t ← (match t with | .none => some none | t => (decodeTy t).map some)
     let vs ← vs.mapM decodeVal
